@@ -51,15 +51,21 @@ CHECKS = {
    technique="nested crash-point enumeration: recovery of each crash image is traced, its own repair writes are cut at every point (subset/tearing), nested images must recover to the first recovery's contents; repair writes checked against live extents",
    text="Images whose recovery writes (journal replay, retiring duplicates/expired winners, marker repair) are re-crashed inside those writes to the stated depth; contents must equal the first successful recovery's, reopening is idempotent, repairs never overlap a live extent.",
    note="Same trusted base as C02; nested images per workload are capped (reported in evidence), virtual clock fixed during recovery."),
+ "C06": dict(engine="unit", cat="exploration", ref="§5 C06",
+   technique="exhaustive small-scope state-space enumeration plus proptest call sequences against a bitmap reference allocator",
+   text="Every reachable free-set state of devices with 4..N data blocks is expanded under every allocate/release argument (incl. overflow values); larger devices are covered by generated sequences biased to run edges. After every call the reported totals and the run list must equal the true merged free set; failed calls change nothing.",
+   note="Trusted: the bitmap reference in harness/src/props/c06.rs; the read-only free-run accessor hook. get_fragmentation is not judged (not part of the statement)."),
+ "C17": dict(engine="unit", cat="exploration", ref="§5 C17",
+   technique="structure-aware image fuzzing (proptest mutation programs over valid images + codec-built forgeries with re-stamped checksums/tokens) with a no-panic / no-hang / no-takeover oracle in journaled worker processes",
+   text="Thousands of random, mutated and forged device images per run are opened by the real code in worker processes; the oracle requires clean termination (Ok or Err), no panic in any thread, a working probe workload on opened stores, and byte-identical files for rejected foreign or invalid devices.",
+   note="Trusted: worker journal (image saved before it is opened) for attribution of aborts/hangs; watchdog 30 s per call; device sizes 17-104 blocks."),
 }
 
 NOT_YET = {
- "C06": "unit engine not registered yet (in construction)",
  "C07": "concurrency engine not registered yet (in construction)",
  "C08": "concurrency engine not registered yet (in construction)",
  "C09": "fault engine not registered yet (in construction)",
  "C15": "migration engine not registered yet (in construction)",
- "C17": "image fuzz engine not registered yet (in construction)",
  "C18": "termination checks not registered yet (in construction)",
  "C19": "write-behind check not registered yet (in construction)",
  "C20": "sanitizer runs not registered yet (in construction)",
